@@ -17,6 +17,7 @@ from __future__ import annotations
 import ast
 import re
 
+from ..core.flow import Flow
 from ..core.index import EnumMember, FuncRef, unparse, walk_no_nested
 from ..core.report import AnalysisError, Finding, RuleResult
 from . import _expand as X
@@ -271,5 +272,106 @@ def rule_r4(ctx) -> RuleResult:
     return rr
 
 
+# kinds whose nodes never receive children: pushed and popped in one step by their handler
+LEAF_KINDS = {
+    "HLINE": "hline_fn pushes and pops at once; the text is regenerated from the kind",
+    "MAGIC_WORD": "magicword_fn pushes and pops at once; the word is kept in sarg",
+}
+
+
+class _Content(Flow):
+    """state = (children_known_empty, emitted).  `emitted` becomes true when the arm passes
+    node.<field> (whole, or element-wise in a loop over it) to recurse()/map(recurse, ...)."""
+
+    def __init__(self, fld: str):
+        self.fld = fld
+
+    def _is_fld(self, e):
+        return isinstance(e, ast.Attribute) and e.attr == self.fld and isinstance(e.value, ast.Name) and e.value.id == "node"
+
+    def _emits(self, node) -> bool:
+        for c in ast.walk(node):
+            if isinstance(c, ast.Call) and isinstance(c.func, ast.Name) and c.func.id == "recurse" and c.args:
+                a = c.args[0]
+                if self._is_fld(a) or (isinstance(a, ast.Subscript) and self._is_fld(a.value)):
+                    return True
+            if isinstance(c, ast.Call) and isinstance(c.func, ast.Name) and c.func.id == "map" and len(c.args) == 2 \
+                    and unparse(c.args[0]) == "recurse" and (self._is_fld(c.args[1]) or (isinstance(c.args[1], ast.Subscript) and self._is_fld(c.args[1].value))):
+                return True
+        return False
+
+    def transfer_expr(self, node, state):
+        if node is None:
+            return [state]
+        empty, emitted = state
+        if self._emits(node):
+            emitted = True
+        return [(empty, emitted)]
+
+    def branch(self, test, state):
+        (st,) = self.transfer_expr(test, state)
+        empty, emitted = st
+        t = test
+        neg = False
+        if isinstance(t, ast.UnaryOp) and isinstance(t.op, ast.Not):
+            t, neg = t.operand, True
+        if self._is_fld(t):
+            tr, fa = (False, emitted), (True, emitted)
+            return ([fa], [tr]) if neg else ([tr], [fa])
+        return [st], [st]
+
+    def run_stmt(self, st, states):
+        if isinstance(st, ast.For) and (self._is_fld(st.iter) or (isinstance(st.iter, ast.Subscript) and self._is_fld(st.iter.value))) \
+                and isinstance(st.target, ast.Name):
+            tgt = st.target.id
+            body_emits = any(isinstance(c, ast.Call) and isinstance(c.func, ast.Name) and c.func.id == "recurse" and c.args
+                             and isinstance(c.args[0], ast.Name) and c.args[0].id == tgt for b in st.body for c in ast.walk(b))
+            if body_emits:
+                from ..core.flow import Outcome
+
+                return Outcome(fall={(e, True) for e, _ in states})
+        return super().run_stmt(st, states)
+
+
+def rule_r5(ctx) -> RuleResult:
+    """No emitter drops a node's content: on every path through the arm of a kind on which the
+    content field (children; largs for the argument-carrying kinds) may be non-empty, the field
+    is handed to recurse()."""
+    rr = RuleResult("C19.R5", "every emitter writes out the node's content on every path where it may be non-empty", min_instances=20)
+    arms, level_arm = _emitter_arms(ctx)
+    have_args = ctx.index.const("parser", "HAVE_ARGS_KIND_FLAGS")
+    have_args_names = {k.name for k in have_args}
+    k2l = ctx.index.const("node_expand", "KIND_TO_LEVEL")
+    todo = []
+    for k, body in arms.items():
+        if k.startswith("%"):
+            continue
+        if k in LEAF_KINDS:
+            continue
+        if k in have_args_names:
+            todo.append((k, body, "largs"))
+            if k == "LINK":
+                todo.append((k, body, "children"))  # the link trail
+        else:
+            todo.append((k, body, "children"))
+    if level_arm is not None:
+        todo.append(("<heading levels>", level_arm, "largs"))
+        todo.append(("<heading levels>", level_arm, "children"))
+    for k, body, fld in todo:
+        w = _Content(fld)
+        out = w.run_block(body, {(False, False)})
+        finals = set(out.fall) | {s for _, s in out.ret}
+        bad = [s for s in finals if not s[0] and not s[1]]
+        if bad:
+            rr.bad(Finding("C19.R5", NE, RECURSE, "emitter of {}: node.{}".format(k, fld),
+                           "there is a path through this emitter on which node.{} may be non-empty and is not written out: the content of "
+                           "such a node disappears from the serialised text".format(fld), body[0].lineno))
+        else:
+            rr.ok(RECURSE, "emitter of {} writes node.{}".format(k, fld), {"kind": k, "field": fld, "paths": len(finals)})
+    for k, why in LEAF_KINDS.items():
+        rr.informational.append({"kind": k, "leaf": why})
+    return rr
+
+
 def run(ctx) -> list:
-    return [rule_r1(ctx), rule_r2(ctx), rule_r3(ctx), rule_r4(ctx)]
+    return [rule_r1(ctx), rule_r2(ctx), rule_r3(ctx), rule_r4(ctx), rule_r5(ctx)]
